@@ -66,6 +66,7 @@ pub fn lookup(name: &str) -> Option<(&'static str, ScenFn)> {
         "zrtt" => (ZRTT_RULE, zrtt as ScenFn),
         "mtu" => (MTU_RULE, mtu as ScenFn),
         "hostile" => (HOSTILE_RULE, hostile as ScenFn),
+        "frames" => (crate::frames::FRAMES_RULE, frames as ScenFn),
         _ => return None,
     })
 }
@@ -147,6 +148,11 @@ pub struct Variant {
     pub shift_s: u64,
     pub spurious: Option<u64>,
     pub no_late: bool,
+    /// record the plaintext frame sequence of every packet (C20 byte-level comparison)
+    pub plain: bool,
+    /// many concurrent streams with small stream windows (several streams owe credit / data at the same time, so
+    /// anything that iterates a set of streams shows its order in the output)
+    pub many_streams: bool,
 }
 
 pub struct XferRun {
@@ -159,10 +165,20 @@ pub struct XferRun {
 
 pub fn xfer_core(seed: u64, v: Variant) -> XferRun {
     let mut rng = Rng::new(seed ^ 0x51ab);
-    let (tc, lim_c) = random_transport(&mut rng);
-    let (ts, lim_s) = random_transport(&mut rng);
+    let (mut tc, mut lim_c) = random_transport(&mut rng);
+    let (mut ts, mut lim_s) = random_transport(&mut rng);
+    if v.many_streams {
+        for (t, lim) in [(&mut tc, &mut lim_c), (&mut ts, &mut lim_s)] {
+            t.stream_receive_window(VarInt::from_u32(*rng.pick(&[400u32, 1500, 4000])));
+            t.receive_window(VarInt::from_u32(*rng.pick(&[20_000u32, 1_000_000])));
+            t.max_concurrent_bidi_streams(VarInt::from_u32(100));
+            t.max_concurrent_uni_streams(VarInt::from_u32(100));
+            *lim = [100, 100];
+        }
+    }
     let (mut sim, ccfg) = default_pair(seed, tc, ts);
     sim.base += Duration::from_secs(v.shift_s);
+    sim.record_plain = v.plain;
     sim.net = random_net(&mut rng);
     // `initial_mtu` above the real path MTU is a documented misconfiguration, not a supported configuration
     sim.net.path_mtu = sim.net.path_mtu.max(1400);
@@ -189,6 +205,14 @@ pub fn xfer_core(seed: u64, v: Variant) -> XferRun {
     let nplans_s = rng.below(3) as usize;
     w.sides[CLIENT].plans = Workload::random_plans(&mut rng, nplans_c, 200_000);
     w.sides[SERVER].plans = Workload::random_plans(&mut rng, nplans_s, 60_000);
+    if v.many_streams {
+        for side in 0..2 {
+            let n = rng.range(4, 9) as usize;
+            w.sides[side].plans = (0..n)
+                .map(|_| Plan { dir: if rng.chance(1, 2) { quinn_proto::Dir::Bi } else { quinn_proto::Dir::Uni }, len: rng.range(3_000, 40_000), chunk: *rng.pick(&[1200usize, 5000, 70000]), finish: true, reset_at: None })
+                .collect();
+        }
+    }
     // a peer limit of 0 streams in a direction makes such a plan impossible (not a wedge): drop those plans
     let di = |d: quinn_proto::Dir| if d == quinn_proto::Dir::Bi { 0 } else { 1 };
     w.sides[CLIENT].plans.retain(|p| lim_s[di(p.dir)] > 0);
@@ -716,9 +740,10 @@ fn trace_key(t: &[Rec]) -> Vec<String> {
 }
 
 pub fn determ(seed: u64, out: &mut Outcome) {
-    let base = Variant { shift_s: 0, spurious: Some(0), no_late: true };
+    let base = Variant { shift_s: 0, spurious: Some(0), no_late: true, plain: true, many_streams: seed % 2 == 0 };
     let a = xfer_core(seed, base);
     let ta = trace_key(&a.sim.trace);
+    let mut plain_compared = 0u64;
     let variants: [(&str, Variant); 3] = [
         ("determinism-replay-differs", base),
         ("shift-equivariance-broken", Variant { shift_s: 1000, ..base }),
@@ -737,6 +762,19 @@ pub fn determ(seed: u64, out: &mut Outcome) {
                 tb.get(i)
             ));
         }
+        // the frames written into every packet, in order (TLS-made bytes reduced to lengths): same inputs, same output
+        if a.sim.plain != b.sim.plain {
+            let i = a.sim.plain.iter().zip(b.sim.plain.iter()).position(|(x, y)| x != y).unwrap_or(a.sim.plain.len().min(b.sim.plain.len()));
+            let cut = |s: Option<&String>| s.map(|s| s.chars().take(300).collect::<String>());
+            out.fails.push(format!(
+                "key=determinism-plaintext-differs seed={seed} variant {key}: packet {i} of {}/{} differs: reference {:?} vs variant {:?}",
+                a.sim.plain.len(),
+                b.sim.plain.len(),
+                cut(a.sim.plain.get(i)),
+                cut(b.sim.plain.get(i))
+            ));
+        }
+        plain_compared += a.sim.plain.len() as u64;
         for f in &b.sim.fails {
             if f.contains("timeout-settle") || f.contains("output-after-drained") {
                 out.fails.push(format!("{f} seed={seed}"));
@@ -756,6 +794,7 @@ pub fn determ(seed: u64, out: &mut Outcome) {
         out.nontrivial += 1;
     }
     out.count("trace-records-compared", 3 * ta.len() as u64);
+    out.count("packets-compared-frame-by-frame", plain_compared);
     if out.samples.len() < 2 {
         out.samples.push(format!("seed {seed}: reference trace {} records, e.g. {:?}", ta.len(), ta.iter().skip(ta.len() / 2).take(4).collect::<Vec<_>>()));
     }
@@ -1098,6 +1137,7 @@ pub fn mtu(seed: u64, out: &mut Outcome) {
     let mut tcs = Vec::new();
     let mut min_mtus = [1200u16; 2];
     let mut upper = [0u16; 2];
+    let mut dgram_buf = [0usize; 2];
     for side in 0..2 {
         let mut t = TransportConfig::default();
         let initial = *rng.pick(&[1200u16, 1200, 1280, 1350]);
@@ -1135,6 +1175,8 @@ pub fn mtu(seed: u64, out: &mut Outcome) {
             t.enable_segmentation_offload(false);
         }
         t.max_idle_timeout(Some(IdleTimeout::try_from(Duration::from_secs(120)).unwrap()));
+        dgram_buf[side] = *rng.pick(&[1500usize, 20_000, 1_048_576]);
+        t.datagram_send_buffer_size(dgram_buf[side]);
         rules[side].initial = initial;
         tcs.push(t);
     }
@@ -1198,6 +1240,10 @@ pub fn mtu(seed: u64, out: &mut Outcome) {
     w.ch[CLIENT] = Some(cch);
     let mut shrinks_below = 0u64;
     let mut next_change = 0usize;
+    let dgram_every = *rng.pick(&[0u64, 3, 7, 20]);
+    let dgram_drop = rng.chance(1, 2);
+    let mut dgram_seq = 0u64;
+    let mut dgrams_accepted = 0u64;
     let end = sim.run_until(900_000_000_000, 600_000, |sim| {
         if w.ch[SERVER].is_none() {
             if let Some(&ch) = sim.nodes[SERVER].accepted.first() {
@@ -1213,11 +1259,85 @@ pub fn mtu(seed: u64, out: &mut Outcome) {
             sim.net.path_mtu = to;
             next_change += 1;
         }
+        // C16: application datagrams of every size up to the reported maximum, all along (also while the path is
+        // a black hole): send() accepts exactly what fits the reported maximum
+        if dgram_every > 0 && sim.steps % dgram_every == 0 {
+            for node in 0..2 {
+                let Some(ch) = w.ch[node] else { continue };
+                if sim.nodes[node].conns[&ch].conn.is_closed() || !sim.nodes[node].conns[&ch].obs.connected {
+                    continue;
+                }
+                let mtu_now = sim.nodes[node].conns[&ch].conn.current_mtu() as usize;
+                let Some(max) = sim.conn(node, ch).datagrams().max_size() else { continue };
+                if max > mtu_now {
+                    sim.fail("dgram-max-size-exceeds-mtu", format!("node {node}: datagrams().max_size() = {max} > current_mtu {mtu_now}"));
+                }
+                let len = match sim.rng.below(4) {
+                    0 => max,
+                    1 => max.saturating_sub(sim.rng.below(3) as usize),
+                    2 => max + 1 + sim.rng.below(3) as usize,
+                    _ => sim.rng.below(max as u64 + 1) as usize,
+                };
+                let mut d = sim.rng.bytes(len);
+                // unique prefix so that the at-most-once matching of the receiver is exact
+                dgram_seq += 1;
+                for (i, b) in dgram_seq.to_be_bytes().iter().enumerate() {
+                    if i < d.len() {
+                        d[i] = *b;
+                    }
+                }
+                let space = sim.conn(node, ch).datagrams().send_buffer_space();
+                let r = sim.conn(node, ch).datagrams().send(d.clone().into(), dgram_drop);
+                match r {
+                    Ok(()) => {
+                        dgrams_accepted += 1;
+                        if len > max {
+                            sim.fail("dgram-send-accepted-oversized", format!("node {node}: send() accepted {len} bytes, max_size() = {max}"));
+                        }
+                        w.sides[node].dgrams_sent.push(d);
+                    }
+                    Err(quinn_proto::SendDatagramError::TooLarge) => {
+                        // a datagram larger than the whole send buffer is also reported as TooLarge
+                        if len <= max && len <= dgram_buf[node] {
+                            sim.fail("dgram-send-rejected-fitting", format!("node {node}: send() said TooLarge for {len} bytes, max_size() = {max}, send buffer {}", dgram_buf[node]));
+                        }
+                    }
+                    Err(quinn_proto::SendDatagramError::Blocked(_)) => {
+                        if dgram_drop {
+                            sim.fail("dgram-blocked-with-drop", format!("node {node}: send(drop = true) returned Blocked"));
+                        }
+                        if len <= space {
+                            sim.fail("dgram-blocked-with-space", format!("node {node}: send() blocked for {len} bytes although send_buffer_space() = {space}"));
+                        }
+                    }
+                    Err(_) => {}
+                }
+            }
+        }
         w.tick(sim);
         w.complete() && w.ch[SERVER].is_some()
     });
     let connected = sim.nodes[CLIENT].conns[&cch].obs.connected;
     let lost_c = sim.nodes[CLIENT].conns[&cch].obs.lost.clone();
+    // C16: once everything else is done, nothing may remain in a datagram send queue for ever
+    if connected && lost_c.is_empty() && w.complete() && end == RunEnd::Done && dgram_every > 0 {
+        let t_end = sim.now + 30_000_000_000;
+        sim.time_cap = Some(t_end);
+        let _ = sim.run_until(t_end, 200_000, |sim| {
+            w.tick(sim);
+            false
+        });
+        sim.time_cap = None;
+        for node in 0..2 {
+            if let Some(ch) = w.ch[node] {
+                let sn = sim.snap(node, ch);
+                if sn.state == "established" && sn.dgram_out_len != 0 {
+                    let max = sim.conn(node, ch).datagrams().max_size();
+                    sim.fail("dgram-stuck-in-send-queue", format!("node {node}: {} datagrams ({} bytes) still queued 30 s after the workload completed with nothing in flight; max_size() = {max:?}, current_mtu {}", sn.dgram_out_len, sn.dgram_out_total, sn.path.current_mtu));
+                }
+            }
+        }
+    }
     if connected && (!lost_c.is_empty() || !w.complete()) && w.ch[SERVER].is_some() {
         sim.fail(
             "mtu-blackhole-no-recovery",
@@ -1245,6 +1365,7 @@ pub fn mtu(seed: u64, out: &mut Outcome) {
     out.count("path-shrinks-below-estimate", shrinks_below);
     out.count("path-mtu-changes", changes.len() as u64);
     out.count("stream-bytes-read", bytes);
+    out.count("app-datagrams-accepted", dgrams_accepted);
     out.count("black-holes-detected", sim.nodes.iter().flat_map(|n| n.conns.values()).map(|nc| nc.conn.stats().path.black_holes_detected).sum());
     for (k, v) in &sim.faults {
         out.count(&format!("fault:{k}"), *v);
@@ -1268,6 +1389,32 @@ pub fn mtu(seed: u64, out: &mut Outcome) {
 
 
 pub const HOSTILE_RULE: &str = "one execution = one endpoint pair, a bystander connection B that completes its handshake undisturbed and then transfers, and a victim connection A opened afterwards; from then on an attacker injects 20..400 unauthenticated datagrams at random instants into either endpoint, from the genuine peer address or a foreign one: random bytes of every length 0..64 and boundary lengths up to 1500 with long/short first byte, and structure-aware mutations of genuine datagrams seen on the wire (version 0/1/grease/random, DCID/SCID length bytes 0/1/20/21/255, token-length and Length varints 0/1/past-the-end/2^62-1, packet type and fixed bit, truncation at every header boundary and at random, coalescing with another genuine or garbage datagram, bit flips); in half of the executions only datagrams of A are mutated; oracles: no panic anywhere in Endpoint::handle / Connection::{handle_event,handle_timeout,poll_transmit,poll} (C03); when only A is attacked, B is never lost and completes its workload with intact content (C03: other connections unaffected); in every execution no connection that the client had seen established is lost and both complete, and A may fail before that only by a (forged) Version Negotiation (C04: forged packets are discarded without effect); the number of server connections stays <= 2 + attack datagrams; bounded steps; non-trivial = both handshakes completed and >= 20 hostile datagrams were processed";
+
+/// (long packet type, total length of the packet) of the long-header packet at the start of `d`.
+fn long_packet_len(d: &[u8]) -> Option<(u8, usize)> {
+    fn varint(d: &[u8], at: usize) -> Option<(u64, usize)> {
+        let b = *d.get(at)?;
+        let n = 1usize << (b >> 6);
+        let mut v = (b & 0x3f) as u64;
+        for i in 1..n {
+            v = (v << 8) | *d.get(at + i)? as u64;
+        }
+        Some((v, n))
+    }
+    let ty = (d.first()? >> 4) & 3;
+    let dl = *d.get(5)? as usize;
+    let sl = *d.get(6 + dl)? as usize;
+    let mut at = 7 + dl + sl;
+    if ty == 3 {
+        return None;
+    }
+    if ty == 0 {
+        let (tl, n) = varint(d, at)?;
+        at += n + tl as usize;
+    }
+    let (len, n) = varint(d, at)?;
+    Some((ty, at + n + len as usize))
+}
 
 fn varint_bytes(v: u64) -> Vec<u8> {
     if v < 64 {
@@ -1409,6 +1556,8 @@ pub fn hostile(seed: u64, out: &mut Outcome) {
     ts.max_idle_timeout(None);
     let (mut sim, ccfg) = default_pair(seed, tc, ts);
     sim.keep_history = true;
+    // the amplification ledger of the simulator is per peer address; here two connections share one
+    sim.check_amp = false;
     sim.net.latency_ns = *rng.pick(&[1_000_000u64, 10_000_000]);
     sim.net.path_mtu = 65000;
     sim.nodes[CLIENT].max_datagrams = rng.range(1, 10) as usize;
@@ -1438,6 +1587,9 @@ pub fn hostile(seed: u64, out: &mut Outcome) {
     let mut a_established_at: Option<u64> = None;
     let every = rng.range(1, 3);
     let only_a = rng.chance(1, 2);
+    let mut late_retries_left = rng.below(3);
+    let mut late_retries = 0u64;
+    let retry_crypto = server_config(0, TransportConfig::default(), &SimClock(Arc::new(std::sync::Mutex::new(std::time::UNIX_EPOCH)))).crypto;
     let caddr = sim.nodes[CLIENT].addr;
     let saddr = sim.nodes[SERVER].addr;
     let small: Vec<usize> = (0..=64).collect();
@@ -1452,15 +1604,75 @@ pub fn hostile(seed: u64, out: &mut Outcome) {
             let ch = sim.connect(ccfg.clone());
             wa.ch[CLIENT] = Some(ch);
             ach = Some(ch);
+            if late_retries_left > 0 {
+                // keep A's client between "processed the server's Initial" and "established" for a probe timeout:
+                // the server's first datagram that starts with a Handshake packet arrives with a damaged tail once
+                let mut done = false;
+                sim.wire_filter = Some(Box::new(move |d: &mut Dgram, _r: &mut Rng| {
+                    if !done && d.origin == SERVER {
+                        // walk the coalesced long-header packets; damage the last byte of the first Handshake packet
+                        let mut off = 0usize;
+                        while off < d.data.len() && d.data[off] & 0x80 != 0 {
+                            let Some((ty, len)) = long_packet_len(&d.data[off..]) else { break };
+                            if ty == 2 && len > 0 && off + len <= d.data.len() {
+                                d.data[off + len - 1] ^= 0x01;
+                                d.genuine = false;
+                                done = true;
+                                break;
+                            }
+                            off += len.max(1);
+                        }
+                    }
+                    true
+                }));
+            }
         }
         if let Some(ch) = ach {
             if wa.ch[SERVER].is_none() {
-                if let Some(&sch) = sim.nodes[SERVER].accepted.get(1) {
+                // A's server side = the accepted connection (other than B's) whose handshake completes: replays of
+                // genuine Initials may create further server connections that nobody answers
+                let cand = sim.nodes[SERVER].accepted.iter().copied().find(|c| Some(*c) != wb.ch[SERVER] && sim.nodes[SERVER].conns.get(c).is_some_and(|nc| nc.obs.connected));
+                if let Some(sch) = cand {
                     wa.ch[SERVER] = Some(sch);
                 }
             }
             if a_established_at.is_none() && sim.nodes[CLIENT].conns[&ch].obs.connected {
                 a_established_at = Some(sim.now);
+            }
+            // C14: a Retry with a VALID integrity tag (anyone who sees the CIDs can compute it) that reaches the
+            // client after it has already processed a server packet must be discarded
+            if late_retries_left > 0 && a_established_at.is_none() {
+                let sn = sim.snap(CLIENT, ch);
+                if sn.state == "handshake" && sn.total_authed_packets > 0 {
+                    // the CIDs the client currently uses, from its latest long-header datagram
+                    let last = (0..sim.history.len()).rev().find(|i| sim.history[*i].origin == CLIENT && sim.history_ch[*i] == Some(ch) && sim.history[*i].data.len() > 7 && sim.history[*i].data[0] & 0x80 != 0);
+                    if let Some(i) = last {
+                        let g = sim.history[i].data.clone();
+                        let dl = g[5] as usize;
+                        if g.len() > 7 + dl {
+                            let dcid = g[6..6 + dl].to_vec();
+                            let sl = g[6 + dl] as usize;
+                            if g.len() >= 7 + dl + sl && dl <= 20 {
+                                let scid = g[7 + dl..7 + dl + sl].to_vec();
+                                let mut pkt = vec![0xf0 | (sim.rng.below(16) as u8)];
+                                pkt.extend_from_slice(&1u32.to_be_bytes());
+                                pkt.push(scid.len() as u8);
+                                pkt.extend_from_slice(&scid);
+                                let newcid = sim.rng.bytes(8);
+                                pkt.push(8);
+                                pkt.extend_from_slice(&newcid);
+                                pkt.extend(sim.rng.bytes(16));
+                                let tag = retry_crypto.retry_tag(1, quinn_proto::ConnectionId::new(&dcid), &pkt);
+                                pkt.extend_from_slice(&tag);
+                                late_retries_left -= 1;
+                                late_retries += 1;
+                                *kinds.entry("late-valid-retry").or_default() += 1;
+                                let at = sim.now;
+                                sim.handle_datagram(CLIENT, Dgram { at, seq: 0, from: saddr, to: caddr, ecn: None, data: pkt, origin: usize::MAX, genuine: false });
+                            }
+                        }
+                    }
+                }
             }
             // the attacker
             if injected < n_attack && sim.steps % every == 0 {
@@ -1516,7 +1728,7 @@ pub fn hostile(seed: u64, out: &mut Outcome) {
         if ach.is_some() {
             wa.tick(sim);
         }
-        wb.complete() && wb.ch[SERVER].is_some() && ach.is_some_and(|ch| !sim.nodes[CLIENT].conns[&ch].obs.lost.is_empty() || (wa.complete() && wa.ch[SERVER].is_some()))
+        wb.complete() && wb.ch[SERVER].is_some() && ach.is_some_and(|ch| !sim.nodes[CLIENT].conns[&ch].obs.lost.is_empty() || (a_established_at.is_some() && wa.complete() && wa.ch[SERVER].is_some()))
     });
     // oracles
     let lost_b = sim.nodes[CLIENT].conns[&bch].obs.lost.clone();
@@ -1541,6 +1753,9 @@ pub fn hostile(seed: u64, out: &mut Outcome) {
         if a_up && (!lost_a.is_empty() || !lost_as.is_empty()) {
             sim.fail("forged-packet-ended-connection", format!("connection A was established at {} ns and then lost: client {lost_a:?} server {lost_as:?}", a_established_at.unwrap()));
         }
+        if late_retries > 0 && !a_up {
+            sim.fail("forged-retry-after-server-packet-derailed-handshake", format!("{late_retries} Retry packet(s) with a valid integrity tag reached the client after it had processed a server packet; the handshake then never completed (client {lost_a:?})"));
+        }
         if !a_up && !lost_a.is_empty() && !lost_a.iter().all(|l| l.contains("VersionMismatch")) {
             sim.fail("forged-packet-ended-handshake", format!("connection A failed during its handshake under unauthenticated injection: {lost_a:?}"));
         }
@@ -1563,6 +1778,7 @@ pub fn hostile(seed: u64, out: &mut Outcome) {
     out.count(&format!("end:{end:?}"), 1);
     out.count("hostile-datagrams", injected);
     out.count("victim-established", a_up as u64);
+    out.count("late-valid-retries", late_retries);
     out.count("server-connections", sconns);
     for (k, v) in &kinds {
         out.count(&format!("mutation:{k}"), *v);
@@ -1593,4 +1809,9 @@ pub fn hostile(seed: u64, out: &mut Outcome) {
     for f in sim.fails.drain(..) {
         out.fails.push(format!("{f} seed={seed}"));
     }
+}
+
+/// Scenario `frames` (C03): hostile *authenticated* peer injecting arbitrary frames; see `crate::frames`.
+pub fn frames(seed: u64, out: &mut Outcome) {
+    crate::frames::frames(seed, out)
 }
